@@ -56,7 +56,8 @@ class JP_Abs(JumpInstruction):
         assert len(rest) == 0, "Expected no extra operands"
         assert isinstance(first, HasWidth), f"Expected HasWidth, got {type(first)}"
         if first.width() >= 3:
-            return first.lift(il)
+            # JP (n): honour the PRE addressing mode shown by render(); other operands ignore it.
+            return first.lift(il, self._addressing_modes()[0])
         high_addr = addr & 0xFF0000
         return il.or_expr(3, first.lift(il), il.const(3, high_addr))
 
